@@ -2220,4 +2220,137 @@ class C03(Oracle):
         return out
 
 
-ORACLES = {'C18': C18, 'C08': C08, 'C09': C09, 'C10': C10, 'C11': C11, 'C12': C12, 'C05': C05, 'C06': C06, 'C07': C07, 'C04': C04, 'C20': C20, 'C15': C15, 'C16': C16, 'C13': C13, 'C01': C01, 'C19': C19, 'C17': C17, 'C02': C02, 'C03': C03}
+class C14(Oracle):
+    prop = 'C14'
+
+    def gen(self, rng):
+        from harness import corr_win
+
+        names = list(corr_win.SETUPS)
+        k = 0
+        while True:
+            k += 1
+            name = names[k % len(names)]
+            params = corr_win.valid_params(rng, name)
+            yield {'kind': 'reset', 'name': name, 'params': params, 'seed': rng.randrange(2**31)}
+
+    def from_line(self, line):
+        t = line.split()
+        if len(t) < 4 or t[0] != 'win':
+            return None
+        # the state is in the line; the layout family is recovered from the dynamics and goal
+        n = int(t[2])
+        atoms = [int(x) for x in t[3 : 3 + n]]
+        i = 3 + n
+        if t[i] == 'any':
+            term = ' '.join(t[i : i + 2 + int(t[i + 1])])
+            i += 2 + int(t[i + 1])
+        else:
+            term = t[i]
+            i += 1
+        goal = t[i]
+        st, j = dec_state(t, i + 1)
+        return {'kind': 'state', 'atoms': atoms, 'term': term, 'goal': goal, 'state': ' '.join(t[i + 1 : j])}
+
+    # ------------------------------------------------------------------------------------------
+    @staticmethod
+    def _key(s):
+        return enc_state(s)
+
+    def _search(self, chain, term, goal_fn, s, stochastic, node_limit):
+        """exists-actions (and, for stochastic dynamics, exists-draws) breadth-first search over the
+        real transition functions; returns (plan or None, exhausted)"""
+        from collections import deque
+        import itertools as itt
+        from harness.recrng import ScriptRng
+        from gym_gridverse.envs import transition_functions as trf
+        from gym_gridverse.grid_object import Door, Key, MovingObstacle
+
+        acts = list(ACTIONS) if any(isinstance(s.grid[p], (Door, Key)) for p in s.grid.area.positions()) else ACTIONS[:4]
+        nobs = sum(isinstance(s.grid[p], MovingObstacle) for p in s.grid.area.positions())
+        draws = list(itt.product(range(4), repeat=nobs)) if stochastic and nobs else [()]
+        seen = {self._key(s)}
+        frontier = deque([(s, [])])
+        n = 0
+        while frontier:
+            cur, plan = frontier.popleft()
+            for a in acts:
+                for dr in draws:
+                    n += 1
+                    if n > node_limit:
+                        return None, False
+                    try:
+                        s2 = trf.transition_with_copy(chain, cur, a, rng=ScriptRng(list(dr)))
+                    except Exception:
+                        continue
+                    if goal_fn(cur, a, s2):
+                        return plan + [(a, dr)], True
+                    if term(cur, a, s2):
+                        continue
+                    k = self._key(s2)
+                    if k in seen:
+                        continue
+                    seen.add(k)
+                    frontier.append((s2, plan + [(a, dr)]))
+        return None, True
+
+    def check(self, c):
+        from harness import corr_win
+        from gym_gridverse.envs import terminating_functions as tf
+        from gym_gridverse.envs import transition_functions as trf
+        from gym_gridverse.grid_object import Exit, Floor, MovingObstacle
+
+        out = []
+        if c['kind'] == 'reset':
+            name = c['name']
+            try:
+                s = reset_call(c)
+            except Exception:
+                return out  # validity of parameters is C13's business
+            where = f'{name} {c["params"]} seed={c["seed"]}'
+            chain, term, goal_fn = corr_win.real_setup(name)
+        else:
+            s = state_from_str(c['state'])
+            chain = trf.factory('chain', transition_functions=[trf.factory(TRANS_NAMES[i]) for i in c['atoms']])
+            reach = tf.factory('reach_exit')
+            if c['term'] == 're':
+                term = reach
+            else:
+                term = tf.factory('reduce_any', terminating_functions=[reach, tf.factory('bump_moving_obstacle'), tf.factory('bump_into_wall')])
+            name = 'memory_rooms' if c['goal'] == 'm' else ('dynamic_obstacles' if 3 in c['atoms'] else 'state')
+            _, _, goal_fn = corr_win.real_setup('memory' if c['goal'] == 'm' else 'empty')
+            where = f'state {c["state"]}'
+        stochastic = any(isinstance(s.grid[p], MovingObstacle) for p in s.grid.area.positions())
+        if stochastic:
+            # cheap randomised search first; exhaustive exists-draws search only on small grids
+            found = corr_win.search_with_draws('dynamic_obstacles', s, random.Random(c.get('seed', 0)), tries=40)
+            if found is not None:
+                return out
+            cells = s.grid.shape.height * s.grid.shape.width
+            plan, exhausted = self._search(chain, term, goal_fn, s, True, 150000 if cells <= 25 else 30000)
+        else:
+            plan, exhausted = self._search(chain, term, goal_fn, s, False, 400000)
+        if plan is not None or not exhausted:
+            return out
+        # unwinnable: classify
+        if name == 'memory_rooms' or (c['kind'] == 'state' and c.get('goal') == 'm'):
+            # would the matching exit be reachable if the other exits did not end the episode?
+            never = lambda s0, a, s1: False  # noqa: E731
+            p2, ex2 = self._search(chain, never, goal_fn, s, False, 400000)
+            if p2 is not None:
+                out.append(V('memory_rooms/matching-exit-cut-off-by-other-exits', where))
+                return out
+        if stochastic:
+            s_free = fast_copy(s)
+            for p in s_free.grid.area.positions():
+                if isinstance(s_free.grid[p], MovingObstacle):
+                    s_free.grid[p] = Floor()
+            p3, _ = self._search(chain, term, goal_fn, s_free, False, 400000)
+            if p3 is not None:
+                out.append(V('dynamic_obstacles/obstacles-force-a-bump', where))
+                return out
+        out.append(V(f'unwinnable/{name}', where))
+        return out
+
+
+ORACLES = {'C18': C18, 'C08': C08, 'C09': C09, 'C10': C10, 'C11': C11, 'C12': C12, 'C05': C05, 'C06': C06, 'C07': C07, 'C04': C04, 'C20': C20, 'C15': C15, 'C16': C16, 'C13': C13, 'C01': C01, 'C19': C19, 'C17': C17, 'C02': C02, 'C03': C03, 'C14': C14}
